@@ -48,6 +48,8 @@ struct Dump {
     minext: Vec<f64>,
     /// number of childless nodes (sampled terminals) below each node
     nleaf: Vec<usize>,
+    /// Profile::weight disagreeing with the normalised stored policy
+    weight_bad: Vec<String>,
 }
 
 fn dump(tree: &Tree, profile: &Profile) -> Dump {
@@ -67,6 +69,7 @@ fn dump(tree: &Tree, profile: &Profile) -> Dump {
         ext: vec![1.0; n],
         minext: vec![1.0; n],
         nleaf: vec![0; n],
+        weight_bad: vec![],
     };
     for (i, node) in nodes.iter().enumerate() {
         assert!(node.index().index() == i);
@@ -85,8 +88,18 @@ fn dump(tree: &Tree, profile: &Profile) -> Dump {
         if d.kids[i].is_empty() {
             d.payoff[i] = node.payoff(&walker);
         } else if d.kind[i] == 'w' || d.kind[i] == 'o' {
+            // sigma = stored policy normalised over the whole menu of the bucket, computed here (f64,
+            // rounded to f32) and not read from Profile::weight, which is only cross-checked
+            let menu: Vec<Edge> = Vec::<Edge>::from(node.bucket().2.clone());
+            let denom: f64 = menu.iter().map(|e| profile.verif_memory(node.bucket(), e).map(|m| m.1 as f64).unwrap_or(0.0)).sum();
             for e in node.outgoing() {
-                d.sigma.insert((d.bucket[i], u8::from(*e)), profile.weight(node.bucket(), e));
+                let pol = profile.verif_memory(node.bucket(), e).map(|m| m.1 as f64).unwrap_or(f64::NAN);
+                let sigma = (pol / denom) as f32;
+                let w = profile.weight(node.bucket(), e);
+                if !((w as f64 - sigma as f64).abs() <= 1e-6 * (sigma as f64).abs().max(1e-30)) && d.weight_bad.len() < 3 {
+                    d.weight_bad.push(format!("node {i} edge {e}: policy {pol:e} / {denom:e} = {sigma:e}, Profile::weight {w:e}"));
+                }
+                d.sigma.insert((d.bucket[i], u8::from(*e)), sigma);
             }
         }
     }
@@ -346,9 +359,9 @@ fn main() {
     let mut rng = Rng::new(a.seed);
     let mut run = Run::new(&a.out);
     quiet_panics();
-    let (epochs, batch, per_tree, synthetic_per_tree, converged, directed, stored, skewed) = if a.thorough() { (60usize, 8usize, 40usize, 12usize, 12usize, 12usize, 8usize, 16usize) } else { (14, 3, 8, 6, 4, 4, 2, 8) };
+    let (epochs, batch, per_tree, synthetic_per_tree, converged, directed, stored, skewed, own_zero) = if a.thorough() { (60usize, 8usize, 40usize, 12usize, 12usize, 12usize, 8usize, 16usize, 12usize) } else { (14, 3, 8, 6, 4, 4, 2, 8, 4) };
     run.rule = format!(
-        "{epochs} training epochs x {batch} trees sampled by the real Blueprint::tree from an initially empty Profile with the stand-in abstraction, traverser alternating; profile updated as Blueprint::solve does; then one tree at each side of the Discount/Explore and Explore/Prune phase boundaries (epoch counter set by the hook); then {directed} directed long-hand trees (scripted opponent; the first two are the steered long hand for each traverser: limp, small raises, call / flop bet-raise-reraise-call / turn checked / river jam — the P1-traverser tree has ~73,600 nodes and > 23,000 sampled terminals below its root, > 10,000 below the root's Call; every information set with more than 2048 terminals below it is evaluated, histogram `terminals-below-head` / `terminals-below-widest-action`) through the real Partition::from, checked against an independent grouping by bucket; {stored} trees with extreme STORED regrets (metamorphic: regret_vector unchanged bit for bit); then {skewed} trees (long steered hands and sampled trees, both traversers) evaluated against SKEWED OPPONENT strategies set after the tree was built (weights 1/1e-2/1e-4/1e-6 or 1 vs 1e-12 per action), so that the external reach of the heads spans 1..1e-30 (histogram head-external-reach; sets whose leaf reach is below 1e-30 are in the f32 underflow zone and only counted); then {converged} trees in 'converged strategy' profile states (every traverser bucket of the tree: one action ~1, the others 1e-10..1e-12 via verif_set_memory, both traversers). Search oracle: textbook estimator in f64 on every information set of every tree (tolerance {TOL}·Σ|terms|). Correspondence: every tree dumped, with its multi-node information sets, its largest information set and a random sample (up to {per_tree} per tree). An information set is non-trivial when Σ|terms| > 0 and it has >= 2 actions; distinct by (epoch, tree, bucket id). Deals come from the code's own thread_rng (every third tree uses the forced draw index from VERIF_SEED); each dumped tree is self-contained in ops.txt"
+        "{epochs} training epochs x {batch} trees sampled by the real Blueprint::tree from an initially empty Profile with the stand-in abstraction, traverser alternating; profile updated as Blueprint::solve does; then one tree at each side of the Discount/Explore and Explore/Prune phase boundaries (epoch counter set by the hook); then {directed} directed long-hand trees (scripted opponent; the first two are the steered long hand for each traverser: limp, small raises, call / flop bet-raise-reraise-call / turn checked / river jam — the P1-traverser tree has ~73,600 nodes and > 23,000 sampled terminals below its root, > 10,000 below the root's Call; every information set with more than 2048 terminals below it is evaluated, histogram `terminals-below-head` / `terminals-below-widest-action`) through the real Partition::from, checked against an independent grouping by bucket; {stored} trees with extreme STORED regrets (metamorphic: regret_vector unchanged bit for bit); then {skewed} trees (long steered hands and sampled trees, both traversers) evaluated against SKEWED OPPONENT strategies set after the tree was built (weights 1/1e-2/1e-4/1e-6 or 1 vs 1e-12 per action), so that the external reach of the heads spans 1..1e-30 (histogram head-external-reach; sets whose leaf reach is below 1e-30 are in the f32 underflow zone and only counted); then {own_zero} trees whose TRAVERSER'S OWN stored policies are exactly 0 / subnormal (1e-36..1e-44) / 1e-20 on some actions (sigma for the oracle and the driver = stored policy normalised here, Profile::weight only cross-checked); then {converged} trees in 'converged strategy' profile states (every traverser bucket of the tree: one action ~1, the others 1e-10..1e-12 via verif_set_memory, both traversers). Search oracle: textbook estimator in f64 on every information set of every tree (tolerance {TOL}·Σ|terms|). Correspondence: every tree dumped, with its multi-node information sets, its largest information set and a random sample (up to {per_tree} per tree). An information set is non-trivial when Σ|terms| > 0 and it has >= 2 actions; distinct by (epoch, tree, bucket id). Deals come from the code's own thread_rng (every third tree uses the forced draw index from VERIF_SEED); each dumped tree is self-contained in ops.txt"
     );
     let bp = Blueprint::verif_new(Profile::default(), Encoder::default());
     let profile = bp.verif_profile();
@@ -385,6 +398,11 @@ fn main() {
     // spans 1 .. 1e-30 (histogram `head-external-reach` in the statistics)
     for k in 0..skewed {
         schedule.push((3000 + k, 1, 4));
+    }
+    // the TRAVERSER'S OWN stored policies at the checked information sets: exactly 0.0 on one or
+    // several actions (others positive), subnormal (1e-36 .. 1e-44), 1e-20, and mixtures
+    for k in 0..own_zero {
+        schedule.push((4000 + k, 1, 5));
     }
     for k in 0..converged {
         schedule.push((16000 + k, 1, 1));
@@ -452,6 +470,38 @@ fn main() {
                 }
                 run.count("skewed-opponent-tree");
             }
+            if mode == 5 {
+                for _ in 0..6 {
+                    if (300..=6000).contains(&tree.all().len()) {
+                        break;
+                    }
+                    tree = bp.verif_tree();
+                }
+                let walker = tree.walker();
+                let mut p = profile.write().unwrap();
+                let mut seen: std::collections::HashSet<Bucket> = Default::default();
+                for node in tree.all() {
+                    if node.player() == walker && !node.children().is_empty() && seen.insert(node.bucket().clone()) {
+                        let edges: Vec<Edge> = node.outgoing().into_iter().copied().collect();
+                        let m = edges.len();
+                        let pick = rng.below(m as u64) as usize;
+                        let pattern = rng.below(6);
+                        for (j, e) in edges.iter().enumerate() {
+                            let (r, old) = p.verif_memory(node.bucket(), e).expect("witnessed");
+                            let pol: f32 = match pattern {
+                                0 => if j == pick && m >= 2 { 0.0 } else { 1.0 },
+                                1 => if j % 2 == 1 { 0.0 } else { [1.0f32, 0.5][(j / 2) % 2] },
+                                2 => if j == pick && m >= 2 { [1e-36f32, 1e-38, 1e-40, 1e-44][(j + m) % 4] } else { 1.0 },
+                                3 => if j == pick && m >= 2 { 1e-20 } else { 0.7 },
+                                4 => if j == 0 { 1.0 } else { [0.0f32, 1e-40, 1e-20, 0.3][j % 4] },
+                                _ => old,
+                            };
+                            p.verif_set_memory(node.bucket(), e, r, pol);
+                        }
+                    }
+                }
+                run.count("own-weights-zero-or-subnormal-tree");
+            }
             if converged {
                 for _ in 0..6 {
                     let n = tree.all().len();
@@ -477,6 +527,9 @@ fn main() {
                 run.count("converged-strategy-tree");
             }
             let d = { dump(&tree, &profile.read().unwrap()) };
+            for m in &d.weight_bad {
+                run.fail("weight-not-normalised-policy", &format!("epoch {epoch} tree {tree_no} {m}"), "policy / sum of policies", "different");
+            }
             let (v, va) = d.values();
             let n = d.parent.len();
             let nleaves = d.kids.iter().filter(|k| k.is_empty()).count();
@@ -551,6 +604,21 @@ fn main() {
                     if !chosen.contains(&i) {
                         chosen.push(i);
                         run.count("dumped-head-with-more-than-4096-terminals-under-one-action-or-8192-below");
+                    }
+                }
+            }
+            if mode == 5 {
+                // heads where one of the traverser's own actions has weight exactly 0 / subnormal / tiny
+                let tiny = |i: usize| { let h = infos[i].roots()[0].index().index(); d.kids[h].iter().map(|&c| d.sig(h, c)).fold(f64::INFINITY, f64::min) };
+                let zero: Vec<usize> = (0..infos.len()).filter(|&i| tiny(i) == 0.0).collect();
+                let sub: Vec<usize> = (0..infos.len()).filter(|&i| tiny(i) > 0.0 && tiny(i) < 1e-30).collect();
+                let small: Vec<usize> = (0..infos.len()).filter(|&i| tiny(i) >= 1e-30 && tiny(i) < 1e-10).collect();
+                run.count_n("head-with-own-action-weight =0", zero.len() as u64);
+                run.count_n("head-with-own-action-weight subnormal(<1e-30)", sub.len() as u64);
+                run.count_n("head-with-own-action-weight 1e-30..1e-10", small.len() as u64);
+                for &i in zero.iter().take(4).chain(sub.iter().take(3)).chain(small.iter().take(2)) {
+                    if !chosen.contains(&i) {
+                        chosen.push(i);
                     }
                 }
             }
